@@ -108,3 +108,23 @@ Definition run_wrapped (c : bool * tree * N * N * bool) : val :=
   VL [VB (root_signed doc);
       VB (match load_source 0 s with Ok _ => true | Err _ => false end);
       VB (own_signature_ok doc nm cert)].
+
+(* ---------- NOT the code the check expects (/repo + proposed_fix/C16-1) ----------
+   The loader with the follow-up proposed_fix/C16-2-after-C01-1: before the tool
+   is called, sigver._enveloped_signature_ok (Model/Xmlsec.v precheck) is asked
+   about the root element and the root's own ID.  Kept here so that, once that
+   follow-up lands, the unit `wrapped` is switched by naming this observable. *)
+Definition root_id (doc : tree) : option str :=
+  match doc with El _ i _ _ => i | Sg _ _ _ => None end.
+Definition md_verdict_prechecked (dupfail : bool) (doc : tree) (nm cert : N) : result bool :=
+  if precheck doc nm (root_id doc) then md_verdict dupfail doc nm cert else Err SignatureError.
+Definition signed_source_prechecked (s : source) (dupfail : bool) (doc : tree) (nm cert : N) : source :=
+  {| s_key := s_key s; s_kind := s_kind s; s_cert := s_cert s; s_check := s_check s; s_http_ok := s_http_ok s;
+     s_verdict := md_verdict_prechecked dupfail doc nm cert;
+     s_doc := {| d_signed := root_signed doc; d_body := d_body (s_doc s) |} |}.
+Definition run_wrapped_prechecked (c : bool * tree * N * N * bool) : val :=
+  let '(dupfail, doc, nm, cert, has_cert) := c in
+  let s := signed_source_prechecked (remote_stub has_cert []) dupfail doc nm cert in
+  VL [VB (root_signed doc);
+      VB (match load_source 0 s with Ok _ => true | Err _ => false end);
+      VB (own_signature_ok doc nm cert)].
